@@ -182,6 +182,14 @@ pub fn run_node<C: MakeCustom, Q: MakeCustomQuery>(
                 let recs: Vec<_> = storage.range(start.as_deref(), end.as_deref(), order).collect();
                 fmt_range(&recs)
             }
+            ReadOp::Keys { start, end, desc } => {
+                let order = if *desc { Order::Descending } else { Order::Ascending };
+                storage.range_keys(start.as_deref(), end.as_deref(), order).map(|k| hex(&k)).collect::<Vec<_>>().join(",")
+            }
+            ReadOp::Values { start, end, desc } => {
+                let order = if *desc { Order::Descending } else { Order::Ascending };
+                storage.range_values(start.as_deref(), end.as_deref(), order).map(|k| hex(&k)).collect::<Vec<_>>().join(",")
+            }
         })
         .collect();
 
